@@ -345,8 +345,15 @@ func expectFromHeaders(h []hpack.HeaderField) (uint64, int64, bool) {
 	return k, n, okK && okN
 }
 
-func newTrig(cfg tcfg) (*trig, error) {
+func newTrig(cfg tcfg) (*trig, error) { return newTrigWrap(cfg, nil) }
+
+// newTrigWrap: wrap, when set, is put around the harness side of the pipe
+// (the abort family stops reading in the middle of a DATA frame with it).
+func newTrigWrap(cfg tcfg, wrap func(net.Conn) net.Conn) (*trig, error) {
 	c, s := net.Pipe()
+	if wrap != nil {
+		s = wrap(s)
+	}
 	r := &trig{byIdx: map[int]uint32{}, seen: map[uint32]bool{}, dead: make(chan struct{})}
 	r.tr = &fork.Transport{AllowHTTP: true, DisableCompression: true}
 	type res struct {
